@@ -144,7 +144,7 @@ def _(s):
 
 @mutant("c08_reverse_order", "eliot/_output.py")
 def _(s):
-    return rep(s, "        for dest in self._destinations:\n            try:", "        for dest in reversed(self._destinations):\n            try:")
+    return rep(s, "        for dest in destinations:\n            try:", "        for dest in reversed(destinations):\n            try:")
 
 @mutant("c16_no_lock_write", "eliot/_output.py")
 def _(s):
@@ -171,7 +171,7 @@ def _(s):
 
 @mutant("c12_buffer_999", "eliot/_output.py")
 def _(s):
-    return rep(s, "while len(self.messages) > 1000:", "while len(self.messages) > 999:")
+    return rep(s, "while len(self.messages) > 1000 and", "while len(self.messages) > 999 and")
 
 @mutant("c12_any_added_never_set", "eliot/_output.py")
 def _(s):
@@ -183,20 +183,14 @@ def _(s):
 
 @mutant("c12_original_handover", "eliot/_output.py")
 def _(s):
-    s = rep(s, """            with buffer._lock:
-                # Re-deliver buffered messages (and whatever gets logged
-                # while doing so), then switch over in a single step:
-                while buffer.messages:
-                    buffered_messages, buffer.messages = buffer.messages, []
-                    for message in buffered_messages:
-                        self._deliver(destinations, message)
-                buffer._forward = self.send
-                self._destinations = destinations""", """            buffered_messages = buffer.messages
+    a = s.index("            with buffer._lock:\n                # Re-deliver buffered messages")
+    b = s.index("        else:\n            self._destinations.extend(destinations)")
+    return s[:a] + """            buffered_messages = buffer.messages
             self._destinations = []
             self._destinations.extend(destinations)
             for message in buffered_messages:
-                self.send(message)""")
-    return s
+                self.send(message)
+""" + s[b:]
 
 @mutant("c11_flush_before_write", "eliot/_output.py")
 def _(s):
